@@ -37,7 +37,7 @@ func Pick(t *T, xs []string, label string) string { return xs[Uniform(t, len(xs)
 // escapers may treat them differently.
 var RuneClasses = [][]rune{
 	{'a', 'Z', '0', ' ', '_', 'n', 'u'},
-	{'"', '\\', '/', '#', ',', ']', '}', '{', '$', '!', '\''},
+	{'"', '\\', '/', '#', ',', ']', '}', '{', '$', '!', '\'', '%', '%', '@', '&', '|', ':', '=', '(', ')'},
 	{'\t', '\n', '\r', '\b', '\f'},
 	{0x00, 0x01, 0x07, 0x0B, 0x1B, 0x1F, 0x7F},
 	{0x80, 0x85, 0x9F, 0xA0, 0xAD},
